@@ -521,22 +521,29 @@ pub fn cleanup_thread() {
     IMG_DIR.with(|d| *d.borrow_mut() = None);
 }
 
-/// a fresh, empty directory for one image (per thread, reused name space)
+thread_local! {
+    static IMG_NO: std::cell::Cell<u64> = const { std::cell::Cell::new(0) };
+}
+
+/// a fresh, empty directory for one image (never reused, so nothing can leak
+/// from one image into the next)
 fn with_image_dir<T>(f: impl FnOnce(&Path) -> T) -> T {
-    IMG_DIR.with(|d| {
+    let base = IMG_DIR.with(|d| {
         let mut d = d.borrow_mut();
         if d.is_none() {
             *d = Some(tempfile::Builder::new().prefix("vh-c06-").tempdir_in(scratch_root()).expect("tempdir"));
         }
-        let base = d.as_ref().unwrap().path().to_path_buf();
-        drop(d);
-        let p = base.join("img");
-        let _ = std::fs::remove_dir_all(&p);
-        std::fs::create_dir_all(&p).expect("mkdir image");
-        let r = f(&p);
-        let _ = std::fs::remove_dir_all(&p);
-        r
-    })
+        d.as_ref().unwrap().path().to_path_buf()
+    });
+    let n = IMG_NO.with(|c| {
+        c.set(c.get() + 1);
+        c.get()
+    });
+    let p = base.join(format!("i{n}"));
+    std::fs::create_dir(&p).expect("mkdir image");
+    let r = f(&p);
+    let _ = std::fs::remove_dir_all(&p);
+    r
 }
 
 fn observe_files<R: Routine>(h: &R::Hist, files: &Files) -> Result<Obs, String> {
@@ -751,15 +758,27 @@ pub fn eval_history<R: Routine>(h: &R::Hist, known: &Known, shrink_target: Optio
 }
 
 /// Re-execute one (history, crash point, image) triple. `Some((key,msg))` if it fails.
+/// When the recorded crash point or image no longer exists (the routine was
+/// changed, e.g. repaired), the whole history is enumerated again instead and
+/// its first failure, if any, is returned.
 pub fn replay_one<R: Routine>(case: &ReplayCase<R::Hist>) -> Result<Option<(String, String)>, String> {
     let recd = run_history::<R>(&case.hist)?;
-    let snap = recd.snaps.get(case.seq).ok_or_else(|| format!("history reaches only {} crash points, replay wants #{}", recd.snaps.len(), case.seq))?;
-    if snap.site != case.site {
-        return Err(format!("crash point #{} is {} now, the replay was recorded at {}", case.seq, snap.site, case.site));
-    }
-    let j = snap.op;
-    let before = &recd.boundaries[j];
-    let after = &recd.boundaries[j + 1];
+    let exact = (|| {
+        let snap = recd.snaps.get(case.seq)?;
+        if snap.site != case.site {
+            return None;
+        }
+        let j = snap.op;
+        let before = recd.boundaries.get(j)?;
+        let after = recd.boundaries.get(j + 1)?;
+        let inf = in_flight_of::<R>(snap, before);
+        let files = materialize(&snap.files, inf.as_ref(), &case.image)?;
+        Some((snap, before, after, files))
+    })();
+    let Some((snap, before, after, files)) = exact else {
+        let out = eval_history::<R>(&case.hist, &Known::default(), None);
+        return Ok(out.fails.into_iter().next().map(|f| (f.key, format!("(recorded crash point not found, history re-enumerated) {}", f.msg))));
+    };
     let old = observe_files::<R>(&case.hist, before);
     let new = observe_files::<R>(&case.hist, after);
     let (old, new) = match (old, new) {
@@ -769,8 +788,6 @@ pub fn replay_one<R: Routine>(case: &ReplayCase<R::Hist>) -> Result<Option<(Stri
             return Ok(Some((format!("C06:{}:reopen-fails:after-completed-operation", R::NAME), format!("no crash involved: {e}"))));
         }
     };
-    let inf = in_flight_of::<R>(snap, before);
-    let files = materialize(&snap.files, inf.as_ref(), &case.image).ok_or_else(|| format!("image {:?} does not apply at crash point #{}", case.image, case.seq))?;
     let obs = observe_files::<R>(&case.hist, &files);
     Ok(judge_obs(&obs, &old, &new).map(|(what, msg)| {
         (
@@ -845,9 +862,9 @@ pub fn run_section<R: Routine>(ck: &mut Check, histories: u64, shards: usize) ->
                 }
             }
             Err(e) => {
-                // a stored replay whose crash point no longer exists (the routine changed): not a verdict
-                total.class("regression-replay-outdated");
-                eprintln!("regression replay {} is outdated: {e}", p.display());
+                // the stored history itself no longer executes: not a verdict
+                total.class("regression-replay-not-executable");
+                eprintln!("regression replay {} cannot be re-executed: {e}", p.display());
             }
         }
     }
